@@ -104,6 +104,8 @@ def jack_matmul(*operands):
         for op in operands[1:]:
             if isinstance(op.flat[0], CObs):
                 r = r @ _exp_to_jack_c(op)
+            elif isinstance(op.flat[0], Obs):
+                r = r @ _exp_to_jack(op)
             else:
                 r = r @ op
         return _imp_from_jack_c(r, name, idl)
